@@ -211,3 +211,79 @@ func genAbortPaths() []string {
 	}
 	return rows
 }
+
+// genRelockUses: "Caller must revalidate inodes" (nfs/lorder.go): every function of package nfs that locks inodes BY NUMBER
+// (`lockInodes`) — which it does after having given the locks of a resolved handle back — with the number of such calls and
+// the number of re-validations that follow the first of them in the source: comparisons of a `.Gen` field with `!=` / `==`
+// and calls of `validateRename`; and `validateRename` itself with the number of `.Gen` comparisons it makes.
+func genRelockUses() []string {
+	var rows []string
+	isGenCmp := func(x ast.Node) bool {
+		be, ok := x.(*ast.BinaryExpr)
+		if !ok || (be.Op != token.NEQ && be.Op != token.EQL) {
+			return false
+		}
+		for _, side := range []ast.Expr{be.X, be.Y} {
+			if se, ok := side.(*ast.SelectorExpr); ok && se.Sel.Name == "Gen" {
+				return true
+			}
+		}
+		return false
+	}
+	for _, f := range parseDirFiles("nfs") {
+		for _, d := range f.Decls {
+			fd, ok := d.(*ast.FuncDecl)
+			if !ok || fd.Body == nil {
+				continue
+			}
+			first := token.NoPos
+			calls := 0
+			ast.Inspect(fd.Body, func(x ast.Node) bool {
+				if ce, ok := x.(*ast.CallExpr); ok && shCallName(ce) == "lockInodes" {
+					calls++
+					if first == token.NoPos || ce.Pos() < first {
+						first = ce.Pos()
+					}
+				}
+				return true
+			})
+			reval := 0
+			ast.Inspect(fd.Body, func(x ast.Node) bool {
+				if x == nil {
+					return true
+				}
+				if fd.Name.Name == "validateRename" {
+					if isGenCmp(x) {
+						reval++
+					}
+					return true
+				}
+				if calls > 0 && x.Pos() > first {
+					if isGenCmp(x) {
+						reval++
+					}
+					if ce, ok := x.(*ast.CallExpr); ok && shCallName(ce) == "validateRename" {
+						reval++
+					}
+				}
+				return true
+			})
+			if calls > 0 || fd.Name.Name == "validateRename" {
+				rows = append(rows, "("+q("nfs."+fd.Name.Name)+", "+itoaT(calls)+", "+itoaT(reval)+")")
+			}
+		}
+	}
+	return rows
+}
+
+func itoaT(n int) string {
+	if n == 0 {
+		return "0"
+	}
+	s := ""
+	for n > 0 {
+		s = string(rune('0'+n%10)) + s
+		n /= 10
+	}
+	return s
+}
